@@ -408,6 +408,15 @@ def run(prog, tier, extra=None):
             e = chb.origin(t["args"][ALLOC_ARG[n]])
             v = lzb.lin(e)
             ok = v is not None and all(k[0] == "len" and c > 0 for k, c in v.t.items())
+            if not ok and e[0] == "call" and e[1].startswith(("saito_", "<saito_")):
+                # a size computed by a workspace function of the value itself (`Vec::with_capacity(self.get_serialized_size())`):
+                # judged by what that function returns - constants and lengths of the value's own collections, added up
+                hb = prog.bodies.get(e[1])
+                if hb is not None and not hb.is_coroutine and hb.nblocks <= 60:
+                    hch = c10.StableChaser(hb)
+                    hlz = _Lz(hb, hch, prog)
+                    rets = [hlz.lin(hch.rvalue(d[3], 0) if d[0] == "stmt" else hch.call(d[2], d[1], 0)) for d in hb.defs(0) if d[0] in ("stmt", "call")]
+                    ok = bool(rets) and all(r is not None and all(k[0] == "len" and c > 0 for k, c in r.t.items()) for r in rets)
             if ok:
                 res.sample({"rule": R6, "site": b.loc(bb), "capacity": show(e)[:60], "verdict": "constant / length of an existing collection"})
             else:
